@@ -55,6 +55,7 @@ static inline long long neg1(long long rc) { return rc < 0 ? -1 : rc; }
  *   source flavour 0: as the adapter declares it                          1: the other style (octet <-> chunk of one octet)
  * The raw driver is always called with pieces of one octet in flavours 1/2, so drivers that count calls stay meaningful. */
 extern int harness_flavour;
+void driver_kick(void);
 #ifdef INC_UFW_SOURCES_AND_SINKS_H
 typedef struct { ChunkSink f; void *drv; } FlavSink;
 static ssize_t flav_sink_one(void *d, const void *b, size_t n) { FlavSink *k = d; return n ? k->f(k->drv, b, 1) : 0; }
